@@ -1,3 +1,4 @@
+#![allow(dead_code, unused_imports, unused_variables)]
 mod common;
 mod diff;
 mod gen1;
